@@ -255,7 +255,6 @@ def correspond_input(ctx, corr, tmp):
             degs += t[:2] == ["ok", "1"]
         elif k[0] == "flip":
             flips += impl[i][0].split("#")[0] != impl[i][0].split("#")[2]
-    # transitivity of the implementation's order on triples from the pool (oracle)
     corr.count("pid_pairs_ordered", lts)
     corr.count("pid_pairs_equal_after_normalisation", eqn)
     corr.count("pid_pairs_with_numeric_id", numeric)
@@ -310,6 +309,20 @@ def eval_pair(gama, wd, tag, net, spec, alg, text=False):
     return bad, ra, rb, nb, e, crash, (ta, tb)
 
 
+def seam_distance(net_a, net_b, rows_a, rows_b):
+    """largest distance (gon) of an approximate orientation shift from 200 gon, over the stations whose
+    directions were removed as outliers (None when nothing was removed)"""
+    worst = None
+    for net, rows in ((net_a, rows_a), (net_b, rows_b)):
+        for st in sorted(set(r["from"] for r in rows if r["type"] == "dir.")):
+            if st not in net["points"]:
+                continue
+            for sft in M.orientation_shifts(net, st):
+                d = abs(sft - 200.0)
+                worst = d if worst is None else max(worst, d)
+    return worst
+
+
 def bad_signature(bad):
     return tuple(sorted(set(b[0] for b in bad)))
 
@@ -349,6 +362,7 @@ def failure_payload(gama, wd, net, spec, alg):
             "fields": sorted(set(b[0] for b in bad)),
             "status": [ra.get("error"), rb.get("error")],
             "outlying": [outlying_rows(ta), outlying_rows(tb)],
+            "seam_distance": seam_distance(net, nb, outlying_rows(ta), outlying_rows(tb)),
             "correlated_clusters": corr_clusters,
             "consistent": (None if spec["kind"] != "mirror" else
                            ((spec["axes"] in ("ne", "sw", "es", "wn")) == (spec["angles"] == "left-handed")))}, bad
@@ -432,11 +446,30 @@ def search_meta(ctx, corr, n, wd, gama):
         if not sbad:                   # shrinking lost it (should not happen): report the unshrunk pair
             payload, sbad = failure_payload(gama, d, net, spec, alg)
         shutil.rmtree(d, ignore_errors=True)
-        what = (f"{kind} of a {net.get('family')} network changes the adjustment: " +
-                ", ".join(payload["fields"][:8]))
-        corr.fail(what, payload, site=site_of(payload), detail=json.dumps(payload["violations"][:6], ensure_ascii=False))
+        for part in split_groups(payload):
+            what = (f"{kind} of a {net.get('family')} network changes the adjustment: " + ", ".join(part["fields"][:8]))
+            corr.fail(what, part, site=site_of(part), detail=json.dumps(part["violations"][:6], ensure_ascii=False))
     for sig, k in seen_sig.items():
         corr.count("failing_signature " + " ".join(map(str, sig))[:150], k)
+
+
+_SIGMA_L = re.compile(r"\('(dx|dy|dz|coordinate-[xyz])'")
+
+
+def split_groups(p):
+    """one failure per mechanism group: (A) sigma_L-derived statistics of observations in correlated clusters,
+    (B) everything else -- so that two independent defects met by the same pair are classified separately"""
+    a = [v for v in p["violations"] if v["field"] in ("stdev", "qrr", "f", "std-residual") and _SIGMA_L.match(v["detail"])]
+    b = [v for v in p["violations"] if v not in a]
+    if not a or not b or not p.get("correlated_clusters"):
+        return [p]
+    out = []
+    for grp in (a, b):
+        q = dict(p)
+        q["violations"] = grp
+        q["fields"] = sorted(set(v["field"] for v in grp))
+        out.append(q)
+    return out
 
 
 def site_of(p):
@@ -461,7 +494,8 @@ def classify_payload(p):
             per = {}
             for r in rows:
                 per[r["from"]] = per.get(r["from"], 0) + 1
-            if all(v >= 2 for v in per.values()) and spec.get("kind") == "rotate":
+            sd = p.get("seam_distance")
+            if all(v >= 2 for v in per.values()) and spec.get("kind") == "rotate" and sd is not None and sd < 0.02:
                 return "F15"
     # C07-F2 (root cause = C09-F1): sigma_L / qrr / f / std-residual of observations inside a cluster with a
     # non-diagonal covariance matrix depend on the position of the observation in the cluster
@@ -479,7 +513,8 @@ def classify_payload(p):
         if fields and fields <= {"cov", "ellipse-alpha"} and flipped:
             return "C07-F3"
         # C07-F1: remove_inconsistency does not change the sign of covariances between y and the other components
-        if p.get("correlated_clusters") and ("adjusted-x" in fields or "adjusted-y" in fields or "residual" in fields):
+        if p.get("correlated_clusters") and fields & {"adjusted-x", "adjusted-y", "adjusted-z", "residual", "ellipse-major",
+                                                        "ellipse-minor", "sum_of_squares", "m0_apost"}:
             return "C07-F1"
     return None
 
@@ -498,7 +533,7 @@ def correspond(ctx, corr):
     try:
         correspond_input(ctx, corr, tmp)
         gd = ctx.build_gama(sanitize=False, targets=("gama-local",))
-        search_meta(ctx, corr, ctx.size(170, 2500), tmp, gd / "gama-local")
+        search_meta(ctx, corr, ctx.size(400, 2500), tmp, gd / "gama-local")
         for k in ("translate", "rotate", "rotate-seam", "permute", "rename", "degrees", "swap", "mirror"):
             if corr.stats.get("pairs_" + k, 0) < 5:
                 corr.inconclusive.append(f"fewer than 5 pairs of kind {k}")
